@@ -248,35 +248,57 @@ Theorem C03_recarray_cells : forall (Rec : Type) (to_rec : Z -> Z -> Z -> Rec) (
 Proof. exact @create_recarrays_cell. Qed.
 Print Assumptions C03_recarray_cells.
 
-(* after any history of change_shg_mgr calls, calculate gives the table a fresh service
-   computes for the current configuration: weights W_g, cell (j, g) = arr[j, g] applied to the
-   record array arr[j][g] builds from group g's current sources *)
+(* the state of the service object is carried literally: change_shg_mgr re-creates the record
+   arrays and the weight arrays and touches nothing else — get_weights after change_shg_mgr and
+   before the next calculate still returns the table of the OLD configuration *)
+Theorem C03_change_shg_mgr_keeps_table : forall (T : Type) (Rec : Type) (J G : nat)
+    (old : svc_state (T:=T) (Rec:=Rec)) (cfg : list (list T) * (Z -> Z -> Z -> Rec)),
+  svc_get_weights (svc_change_to J G old cfg) = svc_get_weights old.
+Proof. exact @svc_change_keeps_table. Qed.
+Print Assumptions C03_change_shg_mgr_keeps_table.
+
+(* after any history of change_shg_mgr calls (and whatever was calculated before), calculate gives
+   the table a fresh service computes for the current configuration: weights W_g; cell (j, g) =
+   arr[j, g] applied to the record array arr[j][g] builds from group g's current sources and to
+   group g's slice of the source parameters *)
 Theorem C03_service_history_independent : forall (T : Type) (N : Num T) (Rec : Type) (J : nat)
     (cfg0 : list (list T) * (Z -> Z -> Z -> Rec)) (changes : list (list (list T) * (Z -> Z -> Z -> Rec)))
-    (cfg : list (list T) * (Z -> Z -> Z -> Rec)) (yc : Z -> Z -> Rec -> list T),
+    (cfg : list (list T) * (Z -> Z -> Z -> Rec)) (yc : Z -> Z -> Rec -> Z * Z -> list T),
   svc_calculate N J (svc_after J (length (fst cfg)) cfg0 (changes ++ [cfg])) yc
   = a_jk_calc N J
       (combine (fst cfg)
-         (map (fun g => map (fun j => yc (Z.of_nat j) (Z.of_nat g)
-                                         (snd cfg (Z.of_nat j) (Z.of_nat g) (Z.of_nat g)))
-                            (seq 0 J))
-              (seq 0 (length (fst cfg))))).
+         (map (fun gs => map (fun j => yc (Z.of_nat j) (Z.of_nat (fst gs))
+                                          (snd cfg (Z.of_nat j) (Z.of_nat (fst gs)) (Z.of_nat (fst gs)))
+                                          (snd gs))
+                             (seq 0 J))
+              (combine (seq 0 (length (fst cfg))) (slices (map zlen (fst cfg)))))).
 Proof. exact @svc_history_independent. Qed.
 Print Assumptions C03_service_history_independent.
 
+(* ... and the re-creation of the weight arrays is needed for it: a change_shg_mgr that re-creates
+   only the record arrays (seeded defect C03-1) keeps computing with the captured weights *)
+Theorem C03_stale_weights_refuted : forall (erfR : R -> R),
+  exists (cfg0 cfg : list (list R) * (Z -> Z -> Z -> unit)) (yc : Z -> Z -> unit -> Z * Z -> list R),
+    svc_calculate (RNum erfR) 1
+      (set_recs (svc_init 1 1 cfg0) (create_recarrays (snd cfg) 1 1)) yc
+    <> a_jk_calc (RNum erfR) 1 (svc_groups 1 cfg yc).
+Proof. exact stale_weights_refuted. Qed.
+Print Assumptions C03_stale_weights_refuted.
+
 Theorem C03_multi_eval_service_fresh : forall (T : Type) (N : Num T) (Rec : Type) (opa ns : T) (J : nat)
     (cfg0 : list (list T) * (Z -> Z -> Z -> Rec)) (changes : list (list (list T) * (Z -> Z -> Z -> Rec)))
-    (cfg : list (list T) * (Z -> Z -> Z -> Rec)) (yc : Z -> Z -> Rec -> list T) (ds : list (dset (T:=T))),
+    (cfg : list (list T) * (Z -> Z -> Z -> Rec)) (yc : Z -> Z -> Rec -> Z * Z -> list T) (ds : list (dset (T:=T))),
   multi_eval_svc N opa ns J (svc_after J (length (fst cfg)) cfg0 (changes ++ [cfg])) yc ds
   = multi_eval N opa ns J (svc_groups J cfg yc) ds.
 Proof. exact @multi_eval_svc_fresh. Qed.
 Print Assumptions C03_multi_eval_service_fresh.
 
 (* end to end: the value the long-lived objects return after any change_shg_mgr history is the
-   manual's sum over datasets on the CURRENT configuration *)
+   manual's sum over datasets on the CURRENT configuration.  (Identity between the totalised real
+   expressions: outside N_j <> 0, ns f_j < N_j, sum_k a_jk <> 0 numpy gives nan/inf, see manifest.) *)
 Theorem C03_multi_eval_service_manual : forall (erfR : R -> R) (Rec : Type) (opa ns : R) (J : nat)
     (cfg0 : list (list R) * (Z -> Z -> Z -> Rec)) (changes : list (list (list R) * (Z -> Z -> Z -> Rec)))
-    (cfg : list (list R) * (Z -> Z -> Z -> Rec)) (yc : Z -> Z -> Rec -> list R)
+    (cfg : list (list R) * (Z -> Z -> Z -> Rec)) (yc : Z -> Z -> Rec -> Z * Z -> list R)
     (ds : list (dset (T:=R))) (v : R),
   multi_eval_svc (RNum erfR) opa ns J (svc_after J (length (fst cfg)) cfg0 (changes ++ [cfg])) yc ds = Ok v ->
   exists a Rs,
@@ -307,6 +329,26 @@ Theorem C03_perm_datasets_service : forall (erfR : R -> R) (opa ns : R) (J : nat
   v = v'.
 Proof. exact multi_eval_perm_datasets. Qed.
 Print Assumptions C03_perm_datasets_service.
+
+(* ---------------------------------------------------------------- source permutation of the VALUE *)
+(* an element of rd is (row of a_jk, (N_j, n_selected_j, pair table_j)) of one dataset.  Left: the
+   sources re-ordered (new source i is old source p[i]), pair tables labelled with the new indices.
+   Right: the same configuration in the old labelling.  Same fractions, same stacked ratios, same value. *)
+Theorem C03_perm_sources_value : forall (erfR : R -> R) (opa ns : R) (K : nat) (p : list nat)
+    (rd : list (list R * (R * nat * list (nat * nat * R)))),
+  Permutation p (seq 0 K) ->
+  Forall (fun x => length (fst x) = K /\ NoDup (map pair_of (snd (snd x)))
+                   /\ Forall (fun v => (src_of v < K)%nat) (snd (snd x))) rd ->
+  let data := fun x : list R * (R * nat * list (nat * nat * R)) =>
+    (fst (fst (snd x)), sw_ratio (RNum erfR) (fst x) (snd (fst (snd x))) (snd (snd x))) in
+  let permuted := map (fun x : list R * (R * nat * list (nat * nat * R)) =>
+                         (map (fun i => nth i (fst x) 0) p, snd x)) rd in
+  let relabelled := map (fun x : list R * (R * nat * list (nat * nat * R)) =>
+                           (fst x, (fst (snd x), map (relabel p) (snd (snd x))))) rd in
+  multi_value (RNum erfR) opa ns (f_j (RNum erfR) (map fst permuted)) (map data permuted)
+  = multi_value (RNum erfR) opa ns (f_j (RNum erfR) (map fst relabelled)) (map data relabelled).
+Proof. exact multi_value_perm_sources. Qed.
+Print Assumptions C03_perm_sources_value.
 
 (* ---------------------------------------------------------------- non-vacuity *)
 (* a 2-dataset, 3-source, 2-group configuration with a zero entry meets every
@@ -343,3 +385,11 @@ Proof. split; reflexivity. Qed.
 Example C03_nonvacuous_perm_service :
   Permutation [1; 0]%nat (seq 0 2) /\ wf_groups 2 [([1; 2], [[1; 2]; [1 / 2; 0]]); ([3], [[4]; [2]])].
 Proof. split; [apply perm_swap|repeat constructor]. Qed.
+
+(* a conclusion evaluated: three sources with a_k = (1, 2, 4); event 0 was selected for sources 0
+   and 2 with ratios 3/2 and 4 *)
+Example C03_weighted_mean_instance : forall (erfR : R -> R),
+  let vals : list (nat * nat * R) :=
+    [((0%nat, 0%nat), 3 / 2); ((0%nat, 2%nat), 2); ((1%nat, 1%nat), 1); ((2%nat, 0%nat), 4)] in
+  nth 0 (sw_ratio (RNum erfR) [1; 2; 4] 3 vals) 0 = (1 * (3 / 2) + 4 * 4) / 7.
+Proof. exact stacked_example. Qed.
